@@ -18,7 +18,7 @@ def main(tier):
         PROP,
         "props.c10",
         tier,
-        5500,
+        8800,
         30000,
         rule_text='one evaluation per monitored fix run; non-trivial = at least one re-fix experiment ran; experiments counted in monitor_totals.n.experiments',
         assumptions=['deep copy of the token list restores the model exactly'],
